@@ -42,8 +42,30 @@ def udp_oracle(case, obs):
     dead = []
     drained = mark_drained(case, obs)
     t = 0
+    by_sid = {}                              # model send id -> send record
     for item in F.walk(case, obs):
         t += 1
+        if item[0] == "deliver":
+            # a network copy reaches its destination host now: whether the port is bound is
+            # judged at ARRIVAL (as the model and the code do), not when it was sent
+            _, k, hd, gid = item
+            sr = by_sid.get(gid[0])
+            if sr is not None and gid[1] < len(sr["enq"]):
+                dst = sr["enq"][gid[1]][1]
+                sr["arrived"] += [x for x in live[hd].values() if x["port"] == dst[1]]
+                sr["timed"].add((hd, dst[1]))
+            continue
+        if item[0] == "flush":
+            # the loopback copies of host h sent before `bound` arrive (end of its next turn)
+            _, k, hh, bound = item
+            for sid_, sr in by_sid.items():
+                if sr["host"] == hh and sid_ < bound and not sr["flushed"]:
+                    sr["flushed"] = True
+                    for (ah, ap) in sr["addrs"]:
+                        if ah == hh:
+                            sr["arrived"] += [x for x in live[hh].values() if x["port"] == ap]
+                            sr["timed"].add((ah, ap))
+            continue
         if item[0] != "cmd":
             continue
         _, k, h, i, cmd, r, s, send_id = item
@@ -115,7 +137,8 @@ def udp_oracle(case, obs):
             targets = [x for hh in range(n) for x in live[hh].values() if (hh, x["port"]) in addrs]
             if dst == "bcast" and not rec["bcast"] and r.get("err") != "PermissionDenied":
                 out.append(("%s: broadcast without SO_BROADCAST returned %s" % (where, r), None))
-            sends[pid] = {"pid": pid, "t": t, "where": where, "host": h, "sock": rec, "dst": dst, "port": port, "payload": payload,
+            by_sid[send_id] = sends[pid] = {"enq": r.get("enq", []), "arrived": [], "timed": set(), "flushed": False,
+                                            "pid": pid, "t": t, "where": where, "host": h, "sock": rec, "dst": dst, "port": port, "payload": payload,
                           "targets": targets, "addrs": addrs, "origin": origin_of(rec, h, dst, v6),
                           "loopdst": isinstance(dst, dict) and "lo" in dst and (v6 or dst["lo"] == 1), "ok": "ok" in r}
         elif name == "recv" and cmd[3] != "readable":
@@ -177,8 +200,12 @@ def udp_oracle(case, obs):
         for x in everyone:
             if x["died"] is not None or len(x["peers"]) > 1 or (x["host"], x["sid"]) not in drained:
                 continue
-            expected = [sr for sr in sends.values() if x in sr["targets"] and sr["ok"]
-                        and not (x["kind"] == "lo" and not sr["loopdst"])]
+            # expected = the copies that ARRIVED while x held the address (a copy whose arrival
+            # was never seen - nothing entered the network for that address - counts from the send)
+            expected = [sr for sr in sends.values()
+                        if (any(y is x for y in sr["arrived"]) or
+                            (any(y is x for y in sr["targets"]) and (x["host"], x["port"]) not in sr["timed"]))
+                        and sr["ok"] and not (x["kind"] == "lo" and not sr["loopdst"])]
             if x.get("nrecv", 0) < len(expected):
                 lens = sorted(len(sr["payload"]) for sr in expected)
                 out.append(("host %d port %d (alive, unconnected, drained, capacity %d not exceeded) was sent %d datagrams (payload lengths %s) over healthy links but returned only %d" % (x["host"], x["port"], cap, len(expected), lens, x.get("nrecv", 0)), None))
@@ -229,7 +256,7 @@ class Spec(PropSpec):
     rule = ("scripts = bind (wildcard / localhost, fixed / ephemeral port) / connect / set_broadcast / set_multicast_loop / join / "
             "leave / send (remote, same host, 127.0.0.x, broadcast, multicast, unowned address; send_to and try_send_to) / "
             "recv (try_recv_from, recv_from polled once, readable) with buffers of 0..64 bytes / drop on 2-4 hosts, IPv4 and IPv6, "
-            "a deterministic option x destination-class matrix (SO_BROADCAST and multicast-loop on/off on sender, local and remote receiver, for broadcast / multicast / remote / same-host / loopback sends); payload lengths from 0; a deterministic boundary family sends payloads of 0, 1, b-1, b, b+1 bytes for buffers b in {0,1,2,5} to every destination class and reads them on each receive path; "
+            "a deterministic send-before-bind family (same-host paths and the network reference; the receiver binds in the same tick, the next tick or too late - an unbound port is judged when the datagram ARRIVES); a deterministic option x destination-class matrix (SO_BROADCAST and multicast-loop on/off on sender, local and remote receiver, for broadcast / multicast / remote / same-host / loopback sends); payload lengths from 0; a deterministic boundary family sends payloads of 0, 1, b-1, b, b+1 bytes for buffers b in {0,1,2,5} to every destination class and reads them on each receive path; "
             "udp_capacity 1..64 with slow receivers, latencies 0..6 ms that reorder, random host order; payloads carry a unique id; "
             "a case is non-trivial when some send has two or more targets or a targeted datagram was dropped; "
             "distinct = distinct (hosts, capacity, script)")
@@ -247,7 +274,7 @@ class Spec(PropSpec):
         ex = F.exhaustive_routing()
         if ctx.tier == "quick":
             ex = ctx.rng.sample(ex, 120)
-        cases = ex + F.boundary_cases() + [F.gen_udp_script(ctx.rng) for _ in range(nrand)]
+        cases = ex + F.boundary_cases() + F.send_before_bind_cases() + [F.gen_udp_script(ctx.rng) for _ in range(nrand)]
         ctx.rng.shuffle(cases)
         return cases
 
